@@ -5,7 +5,7 @@ EXTENDS ConservationProp, TLC, TLCExt, Json, IOUtils
 
 Log == ndJsonDeserialize(IOEnv.VERIF_TRACE)
 VARIABLE l
-tvars == <<inflight, done, known, seen, owner, bad, l>>
+tvars == <<inflight, done, known, seen, owner, bad, cnt, nrep, l>>
 
 SetOf(s) == {s[i] : i \in 1..Len(s)}
 TInit == TLCSet(1, 0) /\ PInit /\ l = 1
@@ -14,6 +14,7 @@ TOffer   == Ev("offer") /\ POffer(SetOf(Log[l].pts), SetOf(Log[l].known))
 TReport  == Ev("report") /\ PReport(Log[l].flush, Log[l].who, SetOf(Log[l].series), SetOf(Log[l].news))
 TQuiesce == Ev("quiesce") /\ PQuiesce
 TReset   == Ev("reset") /\ inflight' = {} /\ done' = {} /\ known' = {} /\ seen' = <<>> /\ owner' = <<>> /\ bad' = bad
+            /\ cnt' = <<>> /\ nrep' = (IF "cfg" \in DOMAIN Log[l] THEN Log[l].cfg.w ELSE 0)
 TSkip    == l <= Len(Log) /\ Log[l].ev \notin {"offer", "report", "quiesce", "reset"} /\ l' = l + 1 /\ UNCHANGED pvars
 TNext == TOffer \/ TReport \/ TQuiesce \/ TReset \/ TSkip
 TSpec == TInit /\ [][TNext]_tvars
